@@ -58,6 +58,9 @@ def _ret_file(eng, p):
     o = VObj("RFile", name=eng.fresh_name("osfile"))
     o.fieldty = {"content": "bytes", "pos": "nat"}
     o.fields["pos"] = VInt(0)
+    cz = z3.Function("fs_content", z3.StringSort(), z3.StringSort())(zstr(p.z))
+    eng.assume(z3.InRe(cz, z3.Star(z3.Range(z3.StringVal("\x00"), z3.StringVal("\xff")))))
+    o.fields["content"] = VStr(cz, True)
     o.fields["path"] = VStr(p.z)
     of = eng.ghost.get("open_files")
     if of is not None:
@@ -195,7 +198,8 @@ def register(w):
             params=params, globals={"rootpath": "opt[str]"},
             requires=req, modifies=["g:rootpath"] + (["ghost.open_files"] if name == "open" else []), raises=raises, returns=returns,
             on_raise={"*": [ROOTINV]},
-            ensures=[ROOTINV] + (["result.pos == 0", "ghost.open_files == old(ghost.open_files) + [result]"] if name == "open" else []),
+            ensures=[ROOTINV] + (["result.pos == 0", "ghost.open_files == old(ghost.open_files) + [result]",
+                                   "result.content == fs_content(S.fspath_of(%s, selector))" % ROOT] if name == "open" else []),
             setup=_setup_sink_config,
             ghost={"open_files": "trace"},
             use_lemmas=[("safe-sel-resolves-under-root", {"s": "selector", "root": ROOT})] if name != "stat" else [],
@@ -207,13 +211,20 @@ def register(w):
     register4(w)
     register5(w)
     register_ast(w)
-    # every contract that may initialise the lazily cached root re-establishes its invariant
+    w.finalizers.append(_root_invariant_everywhere)
+
+
+def _root_invariant_everywhere(w):
+    """Every contract that may initialise the lazily cached root re-establishes its invariant, on normal
+    and on exceptional exit (run after all contract files are loaded)."""
     for (q, k), c in list(w.contracts.items()):
-        if "C01" in c.props and c.modifies and (MROOT in c.modifies) and not any("G.rootpath" in e for e in c.ensures):
+        if c.modifies and (MROOT in c.modifies) and not any("G.rootpath" in e for e in c.ensures):
             cfg = "config" if "config" in c.params else "self.config"
             inv = "G.rootpath is None or G.rootpath == '' or G.rootpath == %s.get('pygopherd', 'root')" % cfg
             c.ensures.append(inv)
             c.on_raise.setdefault("*", []).append(inv)
+            if not c.qualname.startswith("pygopherd/handlers/base.py"):
+                c.globals.setdefault("pygopherd/handlers/base.py:rootpath", "opt[str]")
 
 
 # =====================================================================================================
@@ -594,12 +605,15 @@ def register4(w):
                loops={0: dict(invariant=["0 <= rfile.pos", "rfile.pos <= len(rfile.content)", "fd.written == old(fd.written) + rfile.content[:rfile.pos]",
                                          "len(ghost.open_files) == 1"],
                               decreases="len(rfile.content) - rfile.pos", havoc=["rfile.pos", "fd.written"])},
-               ensures=["len(ghost.open_files) == 0"],
+               ensures=["len(ghost.open_files) == 0",
+                        "fd.written == old(fd.written) + fs_content(S.fspath_of(self.config.get('pygopherd', 'root'), name))"],
                on_raise={"OSError": ["len(ghost.open_files) == 0"]},
+               canary="fd.written == old(fd.written)",
                globals=GROOT, props=["C01", "C04", "C20"])
     w.contract(H + "file.py::FileHandler.write", selfclass=["FileHandler", "HTMLFileTitleHandler"],
                params={"wfile": "obj:WFile"}, requires=FS, modifies=[MROOT, "wfile.written"], raises={"OSError": True},
-               **common)
+               ensures=["wfile.written == old(wfile.written) + fs_content(S.fspath_of(self.config.get('pygopherd', 'root'), self.selector))"],
+               globals=GROOT, props=["C01", "C04"])
     w.contract(H + "dir.py::DirHandler.prep_initfiles", selfclass=["DirHandler", "UMNDirHandler"],
                requires=FS + [SELBASE], modifies=["self.files", "self.linkentries", MROOT], raises={"OSError": True},
                loops={0: dict(invariant=["True"], havoc=["self.files", "self.linkentries"])},
@@ -693,9 +707,6 @@ def register5(w):
                opts={"program_from_config": True},
                note="the program run is decompressors[realencoding]: configuration, not request data; the file opened is getselector()",
                **common)
-    w.contract(H + "file.py::CompressedFileHandler.getentry", selfclass=["CompressedFileHandler"],
-               requires=FS, modifies=["self.entry", MROOT], raises={}, returns="obj:GopherEntry", assumed=True,
-               note="FileHandler.getentry + field rewrites; verified under C04", **common)
     w.fields("GopherEntry", realencoding="opt[str]")
     w.contract(H + "file.py::FileHandler.getentry", selfclass=["FileHandler", "HTMLFileTitleHandler"],
                requires=FS, modifies=["self.entry", MROOT], raises={}, returns="obj:GopherEntry",
